@@ -297,7 +297,9 @@ func (r *remoteReplicator) Replica(idx int64, msg []byte) {
 		r.SetAckIndex(resp.AckIndex)
 		r.statistics.AckSequence.Incr()
 	} else {
-		// TODO: need reset ack sequence?
+		// follower doesn't append the message of replica index(its append index is another one), replicator cannot
+		// go on with current index, need do handshake again(IsReady), else all following messages are rejected too.
+		r.state.Store(&state{state: models.ReplicatorFailureState, errMsg: "follower rejected replica index"})
 		r.statistics.InvalidAckSequence.Incr()
 	}
 }
